@@ -42,7 +42,12 @@ NOTNAMES = list(NOTS)
 
 # ------------------------------------------------------------------ wire forms
 def wopt(v):
-    return 'none' if v is None else fhex(v)
+    if v is None:
+        return 'none'
+    try:
+        return fhex(v)
+    except Exception:  # noqa
+        return f'UNEXPECTED-TYPE:{type(v).__name__}'
 
 
 def wll(v):
@@ -58,7 +63,9 @@ def wll(v):
         return f'DMS {1 if v.positive else 0} {v.degree} {v.minute} {fhex(v.second)}'
     if isinstance(v, A.DDMAngle):
         return f'DDM {1 if v.positive else 0} {v.degree} {fhex(v.minute)}'
-    raise TypeError(f'no wire form for lat/lon {type(v)}')
+    # a latitude / longitude of a type the classes never hold on the unchanged tree (e.g. an int left by round()): a value the
+    # model cannot produce, so it shows up as a disagreement instead of crashing the harness
+    return f'UNEXPECTED-TYPE:{type(v).__name__}:{v!r}'.replace(' ', '_')
 
 
 def prjid(p):
